@@ -66,8 +66,8 @@ def gateOf (c : Client) : Option String :=
   | .createCommit _, _ => some "commit"
   | .createReread _, _ => some "get"
   | .createRetry _, _ => some "commit"
-  | .createOver _ _, _ => some "commit"
-  | .createRecheck _, _ => some "get"
+  | .createOver _ _ _, _ => some "commit"
+  | .createRecheck _ _, _ => some "get"
   | .updateCommit _, _ => some "commit"
   | .deleteDeal _, _ => none
   | .deleteCommit _ _ _, _ => some "commit"
